@@ -11,16 +11,17 @@ class SyncProp(core.Prop):
     nontrivial_labels = ()
     gen_args = {}
 
-    mc_share = 40      # one generated case in `mc_share` is a model-checker case
+    mc_share = 20      # one generated case in `mc_share` is a model-checker case
 
     def strategy(self, tier):
         from hypothesis import strategies as st
         real = syncgen.programs(kinds=self.kinds, **self.gen_args)
         # the model-checker half of the statements ("under every interleaving explored by the model checker"): small programs of
-        # the same object kind, explored by simgrid-mc WITHOUT reduction (all interleavings) when small enough, else with dpor
-        mc = syncgen.programs(kinds=tuple(self.kinds) + ("tick",), mc=True, max_actors=3, max_ops=5, max_mutex=2, max_sem=1, max_cond=1,
+        # the same object kind, explored by simgrid-mc WITHOUT reduction (all interleavings); programs with more than 400 traces are discarded
+        mc = syncgen.programs(kinds=tuple(self.kinds) + ("tick",), mc=True, max_actors=3, max_ops=4, max_mutex=2, max_sem=1, max_cond=1,
                               max_bar=1, profile="contention").map(lambda p: {"mc": True, "program": p})
-        return st.one_of([real] * (self.mc_share - 1) + [mc])
+        # (st.one_of() of the same strategy object repeated does not weight it: draw the class explicitly)
+        return st.integers(0, self.mc_share - 1).flatmap(lambda k: mc if k == 0 else real)
 
     def check_mc(self, case):
         from .. import mcrun, refsem
@@ -32,7 +33,10 @@ class SyncProp(core.Prop):
         except refsem.TooBig:
             oc.invalid = True
             return oc
-        red = "none" if ex.npaths <= 300 else "dpor"
+        if ex.npaths > 400:           # only explorations WITHOUT reduction decide here (the soundness of the reductions is C38's
+            oc.invalid = True         # business), and they cost one application fork per trace: larger programs are discarded by size
+            return oc
+        red = "none"
         res = mcrun.run(sc, red, cpu=40, wall=1200)
         if res.r.wall_exceeded or res.load_failure:
             raise core.Inconclusive()
@@ -80,7 +84,7 @@ class SyncProp(core.Prop):
 class C04(SyncProp):
     id = "C04"
     kinds = ("mutex",)
-    sizes = {"quick": 1500, "thorough": 60000}
+    sizes = {"quick": 1500, "thorough": 20000}
     ready = True
     nontrivial_labels = ("mutex-blocks", "recursive-trylock-depth>=2", "recursive-trylock-first")
     technique = ("property-based testing (Hypothesis): generated lock/try_lock/unlock programs run on the real kernel, their "
@@ -93,7 +97,7 @@ class C04(SyncProp):
             "queue) must match; an operation that returns without grant, or never returns although granted, is a violation. "
             "Non-trivial: some locker blocks, or a recursive mutex is acquired through try_lock.")
     assumptions = ["sequential runs (contexts/nthreads:1): the order of request records is the order in which the kernel handles them",
-                   "one case in 40 is explored by simgrid-mc (reduction none when <= 300 traces, else dpor) and compared with the reference "
+                   "one case in 40 is explored by simgrid-mc without reduction (programs of <= 400 traces) and compared with the reference "
                    "explorer vf/refsem.py; pthread/sthread executions are not exercised"]
 
 
